@@ -114,6 +114,7 @@ PROPS["C03"] = dict(
     stages=[
         dict(name="histories", run="^TestRoutingHistories$", quick=20000, thorough=4000000, shards=16, timeout_thorough=3000),
         dict(name="child", run="^TestStdFallbackChild$", quick=600, thorough=48000, shards=16, timeout_thorough=3000),
+        dict(name="lists", run="^TestListDestinations$", quick=3000, thorough=400000, shards=8, timeout_thorough=3000),
     ],
 )
 
@@ -454,6 +455,7 @@ _ROUND9 = {
     "C20": " MustParseDuration, the parser's twin without an error result, must agree with ParseDuration on every accepted text (round trips and differential).",
 }
 _ROUND10 = {
+    "C03": " Stage lists (TestListDestinations): a destination may be a list of writers - what GetWriter()/GetWriterBy(l) of another logger hand out, or a hand-made slog.LWs of NewLogWriter handles: every member gets the record once and a level-settable member is told the severity immediately before its Write.",
     "C04": " Time values include the zero time.Time, the Unix epoch and their neighbours (1 case of 16).",
     "C10": " Attribute, key/value and context-key lists may be empty (With(), WithAttrs(), WithContextKeys(): still a new child).",
     "C17": " Custom short tags may have any length (a given tag is used as given).",
